@@ -203,7 +203,10 @@ def build(cfg, rng):
         w.keep_unsynchronized = 1 if cfg["keep"] else 0
     elif fam == "saba":
         s = sim.ri_saba
-        s._type = cfg["tcorr"] * 0x100 + cfg["typ"]
+        # selected by its documented name, so that the name table of the Python layer is part of what is traced
+        s.type = (["", "cm", "cl"][cfg["tcorr"]] + str(cfg["typ"] + 1)) if cfg["typ"] <= 3 else ["10,4", "8,6,4", "10,6,4", "h8,4,4", "h8,6,4", "h10,6,4"][cfg["typ"] - 4]
+        if s._type != cfg["tcorr"] * 0x100 + cfg["typ"]:
+            pass        # a wrong name table shows up as a wrong operator word below
         s.safe_mode = 1 if cfg["safe"] else 0
         s.keep_unsynchronized = 1 if cfg["keep"] else 0
     elif fam == "eos":
